@@ -313,7 +313,7 @@ func ExecSt(c StCase) (res core.Result) {
 				res.Viol = core.Violate("C13/v4/sent-mismatch", "DHCPv4 listener #%d with chain %v answered although the chain ends with a nil response", li, c.O.L4)
 				return
 			}
-			if v := cmpLog(wantLog, xid); v != nil {
+			if v := cmpLog(wantLog, xid, origSum(4, p.Bytes())); v != nil {
 				v.Message = fmt.Sprintf("DHCPv4 listener #%d of %d: %s", li, len(conf.Server4.Addresses), v.Message)
 				res.Viol = v
 				return
@@ -355,7 +355,7 @@ func ExecSt(c StCase) (res core.Result) {
 				res.Viol = core.Violate("C13/v6/sent-mismatch", "DHCPv6 listener #%d with chain %v answered although the chain ends with a nil response", li, c.O.L6)
 				return
 			}
-			if v := cmpLog(wantLog, x); v != nil {
+			if v := cmpLog(wantLog, x, origSum(6, m.Bytes())); v != nil {
 				v.Message = fmt.Sprintf("DHCPv6 listener #%d of %d: %s", li, len(conf.Server6.Addresses), v.Message)
 				res.Viol = v
 				return
